@@ -418,6 +418,11 @@ def run_real(proto: onnx.ModelProto, specs: list[dict], mode: str, limit: float 
     from onnxscript import ir
     from onnxscript.rewriter import RewriteRuleSet, rewrite
 
+    # private copy: the IR aliases the proto's initializer TensorProtos, and a passthru replacement that renames an
+    # initializer value (`Neg(Neg(w)) -> w`) renames the tensor inside the caller's ModelProto as well
+    _p = onnx.ModelProto()
+    _p.CopyFrom(proto)
+    proto = _p
     shared = [0]  # one call counter for the whole rule set (the model numbers replacement calls globally)
     for s in specs:
         s["_calls"] = shared
